@@ -296,10 +296,13 @@ class Metadata(CbMixin, ProgMixin):
                     target -= target
                 pathnode = PathNode(start=start, stop=stop, **current)
                 piece.append(pathnode)
-            while target > 0 and file_index < len(self.files):
+            while file_index < len(self.files):
                 start = 0
                 current = self.files[file_index]
                 size = current["length"]
+                # a full piece still takes the empty files that follow it
+                if target == 0 and (remainder or size > 0):
+                    break
                 if size <= target:
                     stop = -1
                     target -= size
